@@ -122,6 +122,37 @@ def run(tier, seed):
             stats.inc("known_class_cases:" + k[6:], len(found[k]))
             del found[k]
         c01.report(v, found, listed)
+    # identifiers under container inputs the value model does not cover (slices of keyed lists, concatenations): the
+    # program is just the identifier, the oracle is direct - a key the input defines is answered from the input with no
+    # resolve call, any other name goes to the host exactly once
+    if built:
+        keyed = "(L (P na i1) (P nb i2) (P nc i3))"
+        extra_inputs = [("(Z %s (R i0 i0))" % keyed, {"a": "i1"}), ("(Z %s (R i1 i2))" % keyed, {"b": "i2", "c": "i3"}),
+                        ("(Z %s (R i0 i2))" % keyed, {"a": "i1", "b": "i2", "c": "i3"}),
+                        ("(K (L (P na i1)) (L (P nb i2) i9))", {"a": "i1", "b": "i2"}),
+                        ("(Z (K (L (P na i1)) (L (P nb i2) (P nc i3))) (R i1 i2))", {"b": "i2", "c": "i3"})]
+        ecases, want = [], []
+        for inp, defined in extra_inputs:
+            for nm in NAMES:
+                for e in (("x", nm), ("B", "app", ("N", 1, ("x", nm)), "$")):
+                    ecases.append(X.Case(X.relabel(e), "min", inp, HOSTS["all"], "c17:containers"))
+                    want.append((nm, defined.get(nm)))
+        err = X.run_batch(ecases)
+        if err:
+            v.tie_failure("exec-c17 containers: " + err)
+        else:
+            for c, (nm, val) in zip(ecases, want):
+                im = X.split_impl(c.impl)
+                for which, raw in (("SimpleGarnishData", im.get("S", "?")), ("BasicGarnishData", im.get("X") if im.get("X") not in (None, "same") else im.get("S", "?"))):
+                    r = X.parse_run(raw)
+                    resolves = [cc for cc in r["calls"] if cc.startswith("R")]
+                    stats.inc("containers:" + r["cls"])
+                    if val is not None and (r["cls"] != "OK" or r["v"] != val or resolves):
+                        v.violation(component="resolve", input=X.describe(c), what="the input value (a %s) defines `%s`, yet on %s the program answers %s with resolve calls %s "
+                                    "(expected %s and no host call)" % ("slice" if c.input.startswith("(Z") else "concatenation", nm, which, r["v"], resolves, val), impl=raw[:200])
+                    if val is None and r["cls"] == "OK" and len(resolves) != 1:
+                        v.violation(component="resolve", input=X.describe(c), what="`%s` is not defined by the input value, yet on %s the host's resolve callback was called %d times (expected once)"
+                                    % (nm, which, len(resolves)), impl=raw[:200])
     calls = {"R": 0, "A": 0}
     with_calls = 0
     for c in cases:
